@@ -369,6 +369,15 @@ def check_iso(desc, ctx):
     x = np.array([1.0 / T for T in desc["T"]])
     what = (f"{desc['kind']} isotherms {desc['model']} {desc['prm']} dH={dH!r} T={desc['T']} "
             f"{K.reps_of(desc['units'])} T-unit {desc['units']['temperature_unit']} {desc['adsorbate']}")
+    # what happens to the isotherm objects between their creation and the analysis: nothing, or the ordinary read-only
+    # uses (printed, identifier taken, compared with each other, looked up in a list)
+    touch = int(desc["n_m"] * 1e6) % 3
+    if touch == 1:
+        for iso in isos:
+            iso.iso_id, str(iso)
+    elif touch == 2:
+        isos[0] == isos[-1], isos[-1] in isos, repr(isos[0])
+    ctx.label(("untouched", "id_taken_before", "compared_before")[touch])
     res = isosteric_enthalpy(isos) if pts is None else isosteric_enthalpy(isos, loading_points=list(pts))
     lib = np.asarray(res["isosteric_enthalpy"], dtype=float)
     lpts = np.asarray(res["loading"], dtype=float)
